@@ -862,6 +862,31 @@ pub fn c15_cli_part(thorough: bool, evals: &AtomicU64, nontrivial: &AtomicU64) -
             None
         })
         .collect();
+    // a source FILE where the destination has a DIRECTORY that holds an excluded file: whatever the run does
+    // about the clash (it may fail), the excluded file must survive, with and without --delete
+    for dir in ["local", "push", "pull"] {
+        for delete in [false, true] {
+            let env = RunEnv { sc: Scratch::new("c15clash") };
+            for d in ["home", "cwd", "rhome"] {
+                let _ = std::fs::create_dir_all(env.sc.path(d));
+            }
+            put_file(&env.src(), "c", b"now a file", 1_600_000_001, 0);
+            put_file(&env.src(), "other", b"o", 1_600_000_002, 0);
+            put_file(&env.dst(), "c/notes.log", b"excluded, must survive", 1_500_000_001, 0);
+            put_file(&env.dst(), "c/stale", b"stale", 1_500_000_002, 0);
+            put_file(&env.dst(), "keep.log", b"excluded at top level", 1_500_000_003, 0);
+            let p = Prepared { src0: snap(&env.src()), dst0: snap(&env.dst()), rhome0: snap(&env.rhome()), env };
+            let c = Cfg { dir, delete, exclude: "*.log", jobs: 2, verbose: false, template: "clash" };
+            let _o = run_sync(&p.env, &c, &[], None);
+            evals.fetch_add(1, Ordering::Relaxed);
+            let (d1, _) = snap(&p.env.dst());
+            for k in ["c/notes.log", "keep.log"] {
+                if d1.get(k) != p.dst0.0.get(k) {
+                    out.push(Violation::new("excluded_path_touched", format!("[{dir} delete={delete} exclude *.log, source file `c` vs destination directory `c/`] excluded destination path {k:?} was modified or removed"), json!({"part":"cli_excludes_clash","direction":dir,"delete":delete})).with("direction", json!(dir)));
+                }
+            }
+        }
+    }
     // dry runs: every (quick) C04 configuration first with --dry-run
     let cfgs = configs(thorough);
     let dv: Vec<Violation> = cfgs
